@@ -18,19 +18,35 @@ const (
 	c18Cont
 	c18Choice
 	c18Case
+	c18LL  // leaf-list with min/max
+	c18Lst // list keyed by k with min/max and an optional unique path
 )
 
 type c18n struct {
 	kind     int
 	name     string
-	mand     bool // leaf, choice
-	presence bool // container
+	mand     bool   // leaf, choice
+	presence bool   // container
+	def      string // leaf default value, choice default case
+	min, max int    // leaf-list, list (max 0 = unbounded)
+	unique   []string
 	kids     []*c18n
 }
 
 type c18d struct {
-	spec *c18n
-	kids []*c18d
+	spec  *c18n
+	kids  []*c18d
+	count int    // leaf-list values
+	val   string // leaf value
+}
+
+func c18LD(name, def string) *c18n { return &c18n{kind: c18Leaf, name: name, def: def} }
+func c18ChD(name, def string, cases ...*c18n) *c18n {
+	return &c18n{kind: c18Choice, name: name, def: def, kids: cases}
+}
+func c18LLn(name string, min, max int) *c18n { return &c18n{kind: c18LL, name: name, min: min, max: max} }
+func c18Ls(name string, min, max int, unique []string, kids ...*c18n) *c18n {
+	return &c18n{kind: c18Lst, name: name, min: min, max: max, unique: unique, kids: kids}
 }
 
 func c18L(name string, mand bool) *c18n { return &c18n{kind: c18Leaf, name: name, mand: mand} }
@@ -61,6 +77,24 @@ var c18Shapes = []*c18n{
 	c18NP("top",
 		c18PC("pc", c18NP("n3", c18NP("n4", c18NP("n5", c18Ch("chd", true, c18Cs("d1", c18L("xd", false)), c18Cs("d2", c18L("yd", false)))))), c18L("op", false)),
 		c18NP("n6", c18Ch("che", true, c18Cs("e1", c18L("xe", false)), c18Cs("e2", c18NP("n7", c18L("me", true), c18L("oe", false)))))),
+	// min-elements seen through non-presence containers; entries are existing parents;
+	// unique over a descendant
+	c18NP("top",
+		c18NP("n8", c18NP("n9", c18LLn("ll", 1, 2), c18Ls("lst", 1, 2, []string{"c", "x"},
+			c18NP("c", c18L("x", false)), c18L("me", true)))),
+		c18PC("pc2", c18LLn("ll2", 2, 0))),
+}
+
+// shapes for default decoration: defaults at depth, default cases at depth
+var c18DefShapes = []*c18n{
+	c18NP("top",
+		c18NP("n1", c18NP("n2", c18LD("d2", "v2"), c18L("o2", false)), c18LD("d1", "v1")),
+		c18PC("pc", c18NP("n3", c18LD("d3", "v3")), c18L("op", false))),
+	c18NP("top",
+		c18ChD("cha", "a2",
+			c18Cs("a1", c18L("xa", false), c18LD("da", "va")),
+			c18Cs("a2", c18NP("na", c18LD("dn", "vn")), c18LD("db", "vb"),
+				c18ChD("chb", "b1", c18Cs("b1", c18LD("dc", "vc")), c18Cs("b2", c18L("xb", false)))))),
 }
 
 func c18Build(n *c18n) Node {
@@ -73,18 +107,38 @@ func c18Build(n *c18n) Node {
 	var err error
 	switch n.kind {
 	case c18Leaf:
-		out = NewLeaf(n.name, ns, mod, "", "", "", "", n.mand, NewString(xml.Name{Local: "string"}, nil, nil, nil, "", false), true, Current, nil, nil)
+		out = NewLeaf(n.name, ns, mod, "", "", "", "", n.mand, NewString(xml.Name{Local: "string"}, nil, nil, nil, n.def, n.def != ""), true, Current, nil, nil)
+	case c18LL:
+		out = NewLeafList(n.name, ns, mod, "", "", "", "", "", "", uint(n.min), c18Max(n.max), NewString(xml.Name{Local: "string"}, nil, nil, nil, "", false), true, Current, nil, nil)
+	case c18Lst:
+		var uniq [][][]xml.Name
+		if len(n.unique) > 0 {
+			var path []xml.Name
+			for _, e := range n.unique {
+				path = append(path, xml.Name{Local: e})
+			}
+			uniq = [][][]xml.Name{{path}}
+		}
+		key := NewLeaf("k", ns, mod, "", "", "", "", false, NewString(xml.Name{Local: "string"}, nil, nil, nil, "", false), true, Current, nil, nil)
+		out, err = NewList(n.name, ns, mod, "", "", "", "", uint(n.min), c18Max(n.max), true, Current, []string{"k"}, uniq, nil, nil, append([]Node{key}, kids...))
 	case c18Cont:
 		out, err = NewContainer(n.name, ns, mod, "", "", "", n.presence, true, Current, nil, nil, kids)
 	case c18Case:
 		out, err = NewCase(n.name, ns, mod, "", "", "", true, Current, nil, kids)
 	case c18Choice:
-		out, err = NewChoice(n.name, ns, mod, "", "", "", "", n.mand, true, Current, nil, kids)
+		out, err = NewChoice(n.name, ns, mod, "", n.def, "", "", n.mand, true, Current, nil, kids)
 	}
 	if err != nil {
 		panic(err)
 	}
 	return out
+}
+
+func c18Max(m int) uint {
+	if m == 0 {
+		return ^uint(0)
+	}
+	return uint(m)
 }
 
 // c18Gen: symbolic data below a node's children; a choice contributes the nodes of one
@@ -96,7 +150,24 @@ func c18Gen(children []*c18n, tag string) []*c18d {
 		switch c.kind {
 		case c18Leaf:
 			if vrt.Bool(t) {
-				out = append(out, &c18d{spec: c})
+				v := "v"
+				if c.name == "x" {
+					v = lowerPQ(t + ".val") // the leaf of the unique path: symbolic value from {p,q}
+				}
+				out = append(out, &c18d{spec: c, val: v})
+			}
+		case c18LL:
+			if n := vrt.Choice(t, 4); n > 0 {
+				out = append(out, &c18d{spec: c, count: n})
+			}
+		case c18Lst:
+			// 0..3 entries, each an existing parent of its own children
+			if n := vrt.Choice(t, 4); n > 0 {
+				l := &c18d{spec: c}
+				for e := 0; e < n; e++ {
+					l.kids = append(l.kids, &c18d{spec: c, count: e + 1, kids: c18Gen(c.kids, t+"#"+string(rune('1'+e)))})
+				}
+				out = append(out, l)
 			}
 		case c18Cont:
 			if vrt.Bool(t) {
@@ -113,8 +184,24 @@ func c18Gen(children []*c18n, tag string) []*c18d {
 }
 
 func c18Data(d *c18d) datanode.DataNode {
-	if d.spec.kind == c18Leaf {
-		return dleaf(d.spec.name, "v")
+	switch d.spec.kind {
+	case c18Leaf:
+		if d.spec.name == "x" {
+			// the unique leaf: entry-dependent symbolic value from {p,q}
+			return dleaf("x", d.val)
+		}
+		return dleaf(d.spec.name, d.val)
+	case c18LL:
+		return datanode.CreateDataNode(d.spec.name, nil, []string{"1", "2", "3"}[:d.count])
+	case c18Lst:
+		if d.count > 0 { // an entry: named by its key value
+			key := string(rune('0' + d.count))
+			kids := []datanode.DataNode{dleaf("k", key)}
+			for _, k := range d.kids {
+				kids = append(kids, c18Data(k))
+			}
+			return datanode.CreateDataNode(key, kids, nil)
+		}
 	}
 	var kids []datanode.DataNode
 	for _, k := range d.kids {
@@ -157,6 +244,56 @@ func c18Missing(children []*c18n, data []*c18d) bool {
 			if c.mand && c18Find(data, c) == nil {
 				return true
 			}
+		case c18LL:
+			n := 0
+			if d := c18Find(data, c); d != nil {
+				n = d.count
+			}
+			if n < c.min || (c.max > 0 && n > c.max) {
+				return true
+			}
+		case c18Lst:
+			var entries []*c18d
+			if d := c18Find(data, c); d != nil {
+				entries = d.kids
+			}
+			if len(entries) < c.min || (c.max > 0 && len(entries) > c.max) {
+				return true
+			}
+			var seen []string
+			for _, e := range entries {
+				if c18Missing(c.kids, e.kids) {
+					return true
+				}
+				if len(c.unique) > 0 {
+					// value of the unique path inside this entry (absent = does not take part)
+					cur := e.kids
+					val, ok := "", false
+					for k, name := range c.unique {
+						var nx *c18d
+						for _, d := range cur {
+							if d.spec.name == name {
+								nx = d
+							}
+						}
+						if nx == nil {
+							break
+						}
+						if k == len(c.unique)-1 {
+							val, ok = nx.val, true
+						}
+						cur = nx.kids
+					}
+					if ok {
+						for _, o := range seen {
+							if o == val {
+								return true
+							}
+						}
+						seen = append(seen, val)
+					}
+				}
+			}
 		case c18Cont:
 			if d := c18Find(data, c); d != nil {
 				if c18Missing(c.kids, d.kids) {
@@ -195,4 +332,77 @@ func VerifH_C18_Nested() {
 	vrt.Observe("verdict", len(errs) == 0, ok)
 	vrt.Assert((len(errs) > 0) == viol, "c18.nested.verdict")
 	vrt.Assert(ok == (len(errs) == 0), "c18.nested.status-matches-errors")
+}
+
+
+// c18Decorated: the default-decorated view as sorted "path=value" lines (RFC 6020
+// §7.6.1, §7.9.3): defaults of absent leaves under existing parents and under
+// non-presence containers; inside the active case, else inside the default case.
+func c18Decorated(children []*c18n, data []*c18d, prefix string, out *[]string) {
+	for _, c := range children {
+		p := prefix + "/" + c.name
+		switch c.kind {
+		case c18Leaf:
+			if d := c18Find(data, c); d != nil {
+				*out = append(*out, p+"="+d.val)
+			} else if c.def != "" {
+				*out = append(*out, p+"="+c.def)
+			}
+		case c18Cont:
+			d := c18Find(data, c)
+			if d == nil && c.presence {
+				continue
+			}
+			var sub []string
+			var kids []*c18d
+			if d != nil {
+				kids = d.kids
+			}
+			c18Decorated(c.kids, kids, p, &sub)
+			if len(sub) == 0 && d != nil {
+				sub = []string{p} // an existing empty container stays
+			}
+			*out = append(*out, sub...)
+		case c18Choice:
+			var active *c18n
+			for _, cs := range c.kids {
+				if c18HasData(cs, data) {
+					active = cs
+				}
+			}
+			if active == nil && c.def != "" {
+				for _, cs := range c.kids {
+					if cs.name == c.def {
+						active = cs
+					}
+				}
+			}
+			if active != nil {
+				c18Decorated(active.kids, data, prefix, out) // choices and cases are transparent
+			}
+		}
+	}
+}
+
+// VerifH_C18_NestedDefaults
+func VerifH_C18_NestedDefaults() {
+	spec := c18DefShapes[vrt.Choice("shape", len(c18DefShapes))]
+	top := c18Build(spec)
+	data := &c18d{spec: spec, kids: c18Gen(spec.kids, "")}
+	var want []string
+	c18Decorated(spec.kids, data.kids, "/top", &want)
+	if len(want) == 0 {
+		want = []string{"/top"}
+	}
+	vrt.Reach("c18.nesteddefaults")
+	dn := c18Data(data)
+	once := AddDefaults(top, dn)
+	var got, got2, before []string
+	c18Walk(dn, "", &before)
+	c18Walk(once, "", &got)
+	c18Walk(AddDefaults(top, once), "", &got2)
+	g, w, g2 := sortedJoin(got), sortedJoin(want), sortedJoin(got2)
+	vrt.Observe("decorated", sortedJoin(before), g)
+	vrt.Assert(g == w, "c18.nesteddefaults.decorated-view")
+	vrt.Assert(g == g2, "c18.nesteddefaults.idempotent")
 }
